@@ -427,6 +427,10 @@ helper_scans(struct mmgr *mm)
                 { "ghash_pre", (void *) m->ghash_pre, 2, 2 },
                 { "imb_hmac_ipad_opad/sha1", (void *) imb_hmac_ipad_opad, 6, 4 },
                 { "imb_hmac_ipad_opad/sha512", (void *) imb_hmac_ipad_opad, 6, 5 },
+                /* only one of the two states requested (the helper documents NULL for the other) */
+                { "imb_hmac_ipad_opad/sha1-ipad-only", (void *) imb_hmac_ipad_opad, 6, 6 },
+                { "imb_hmac_ipad_opad/sha256-opad-only", (void *) imb_hmac_ipad_opad, 6, 7 },
+                { "imb_hmac_ipad_opad/sha384-ipad-only", (void *) imb_hmac_ipad_opad, 6, 8 },
         };
         for (unsigned i = 0; i < ARRAY_SZ(hl); i++) {
                 struct hit h[2][4];
@@ -451,9 +455,21 @@ helper_scans(struct mmgr *mm)
                                 mcall(hl[i].name, hl[i].fn, 6, (uint64_t) m, (uint64_t) IMB_AUTH_HMAC_SHA_1, (uint64_t) key[rep], (uint64_t) 40,
                                       (uint64_t) o1, (uint64_t) o2);
                                 break;
-                        default:
+                        case 5:
                                 mcall(hl[i].name, hl[i].fn, 6, (uint64_t) m, (uint64_t) IMB_AUTH_HMAC_SHA_512, (uint64_t) key[rep], (uint64_t) 64,
                                       (uint64_t) o1, (uint64_t) o2);
+                                break;
+                        case 6:
+                                mcall(hl[i].name, hl[i].fn, 6, (uint64_t) m, (uint64_t) IMB_AUTH_HMAC_SHA_1, (uint64_t) key[rep], (uint64_t) 40,
+                                      (uint64_t) o1, (uint64_t) 0);
+                                break;
+                        case 7:
+                                mcall(hl[i].name, hl[i].fn, 6, (uint64_t) m, (uint64_t) IMB_AUTH_HMAC_SHA_256, (uint64_t) key[rep], (uint64_t) 33,
+                                      (uint64_t) 0, (uint64_t) o2);
+                                break;
+                        default:
+                                mcall(hl[i].name, hl[i].fn, 6, (uint64_t) m, (uint64_t) IMB_AUTH_HMAC_SHA_384, (uint64_t) key[rep], (uint64_t) 64,
+                                      (uint64_t) o1, (uint64_t) 0);
                         }
                         g_cm->want_residue = 0;
                         nh[rep] = scan_all(mm, pats[rep], h[rep], 0);
